@@ -36,6 +36,52 @@ use serde_json::Value;
 
 pub struct C05;
 
+/// the public constructors of the prefix families against the octets `enc` that the serde-built value composed to
+fn pfx_ctors(var: &Var, enc: &[u8]) -> Option<String> {
+    use inetnum::addr::Prefix;
+    use routecore::bgp::types::PathId;
+    use std::net::{Ipv4Addr, Ipv6Addr};
+    use std::str::FromStr;
+    let (pid, rest) = if var.ap { if enc.len() < 5 { return None; } (Some(u32::from_be_bytes([enc[0], enc[1], enc[2], enc[3]])), &enc[4..]) } else { (None, enc) };
+    let len = *rest.first()?;
+    let nb = (len as usize + 7) / 8;
+    if rest.len() != 1 + nb || nb > 16 { return None; }
+    let mut a = [0u8; 16];
+    a[..nb].copy_from_slice(&rest[1..]);
+    let (pfx, other) = if var.v6 {
+        (Prefix::new_v6(Ipv6Addr::from(a), len).ok()?, Prefix::new_v4(Ipv4Addr::new(10, 0, 0, 0), 8).unwrap())
+    } else {
+        if nb > 4 { return None; }
+        (Prefix::new_v4(Ipv4Addr::new(a[0], a[1], a[2], a[3]), len).ok()?, Prefix::new_v6(Ipv6Addr::from([0x20, 1, 0xd, 0xb8, 0, 0, 0, 0, 0, 0, 0, 0, 0, 0, 0, 0]), 32).unwrap())
+    };
+    macro_rules! go {
+        ($t:ty, $tap:ty) => {{
+            if <$t>::try_from(other).is_ok() { return Some("TryFrom<Prefix> accepts a prefix of the other IP version".into()); }
+            if <$tap>::try_from((other, PathId(1))).is_ok() { return Some("TryFrom<(Prefix, PathId)> accepts a prefix of the other IP version".into()); }
+            if <$t>::from_str(&other.to_string()).is_ok() { return Some("FromStr accepts a prefix of the other IP version".into()); }
+            let (Ok(p), Ok(q)) = (<$t>::try_from(pfx), <$t>::from_str(&pfx.to_string())) else { return Some(format!("TryFrom<Prefix> / FromStr refuse {}", pfx)); };
+            if p != q { return Some(format!("TryFrom<Prefix> and FromStr differ on {}", pfx)); }
+            let mut out: Vec<u8> = Vec::new();
+            match pid {
+                None => { p.compose(&mut out).unwrap(); }
+                Some(id) => {
+                    let Ok(ap) = <$tap>::try_from((pfx, PathId(id))) else { return Some(format!("TryFrom<(Prefix, PathId)> refuses {}", pfx)); };
+                    ap.compose(&mut out).unwrap();
+                }
+            }
+            if out != enc { return Some(format!("the constructors build {} where serde built {}", hex(&out), hex(enc))); }
+            None
+        }};
+    }
+    match var.name.trim_end_matches("Addpath") {
+        "Ipv4Unicast" => go!(Ipv4UnicastNlri, Ipv4UnicastAddpathNlri),
+        "Ipv4Multicast" => go!(Ipv4MulticastNlri, Ipv4MulticastAddpathNlri),
+        "Ipv6Unicast" => go!(Ipv6UnicastNlri, Ipv6UnicastAddpathNlri),
+        "Ipv6Multicast" => go!(Ipv6MulticastNlri, Ipv6MulticastAddpathNlri),
+        _ => None,
+    }
+}
+
 #[derive(Clone, Copy, PartialEq, Eq, Debug)]
 pub enum Shape { Pfx, Mpls, Vpn, Rt, Fs, Vpls, Evpn }
 
@@ -778,7 +824,18 @@ impl Prop for C05 {
         let w: Vec<&str> = line.split(' ').collect();
         if w.len() < 3 { return "bad-op".into(); }
         match variant(w[1]) {
-            Some(var) => (var.run)(var, w[0], &w[2..]),
+            Some(var) => {
+                let mut reply = (var.run)(var, w[0], &w[2..]);
+                // (tie coverage) the four prefix families have public constructors next to serde and the parsers:
+                // TryFrom<Prefix>, FromStr, TryFrom<(Prefix, PathId)>.  The value they build from the same prefix
+                // composes to the same octets, and they refuse a prefix of the other IP version.
+                if w[0] == "val" && var.shape == Shape::Pfx {
+                    if let Some(enc) = reply.strip_prefix("ok enc=").and_then(|r| r.split(' ').next()).and_then(unhex_strict) {
+                        if let Some(why) = pfx_ctors(var, &enc) { reply.push_str(&format!(" CTOR-BAD:{}", why.replace(' ', "_"))); }
+                    }
+                }
+                reply
+            }
             None => "bad-op".into(),
         }
     }
@@ -786,6 +843,7 @@ impl Prop for C05 {
     fn oracle(&self, line: &str, reply: &str) -> Result<(), String> {
         let w: Vec<&str> = line.split(' ').collect();
         if w.len() < 3 || reply == "bad-op" { return Ok(()); }
+        if let Some(i) = reply.find(" CTOR-BAD:") { return Err(format!("the public constructors of the family disagree with the value: {}", &reply[i + 10..])); }
         let Some(var) = variant(w[1]) else { return Ok(()) };
         let parts: Vec<&str> = reply.split(" | ").collect();
         let rd = |s: &str| -> Option<Val> { read(var.shape, var.ap, &s.split(' ').collect::<Vec<_>>()) };
